@@ -559,3 +559,156 @@ pub fn systematic_framing(thorough: bool) -> Vec<Case> {
     }
     cases
 }
+
+// ---------------------------------------------------------------------------------------
+// C12 — Maximum Packet Size
+
+fn ref_len(spec: &OpSpec) -> usize {
+    spec.expected().map(|p| crate::refcodec::encode(&p).len()).unwrap_or(0)
+}
+
+/// Pads `spec` so that the reference encoding is exactly `target` bytes long, if possible.
+fn pad_to(spec: &mut OpSpec, target: usize, rng: &mut Rng) {
+    for _ in 0..6 {
+        let cur = ref_len(spec);
+        if cur == target {
+            return;
+        }
+        let delta = target as i64 - cur as i64;
+        let grow = |v: &mut Vec<u8>, d: i64| {
+            if d > 0 {
+                v.extend(std::iter::repeat(b'.').take(d as usize));
+            } else {
+                let n = (-d) as usize;
+                let keep = v.len().saturating_sub(n);
+                v.truncate(keep);
+            }
+        };
+        let grow_s = |v: &mut String, d: i64| {
+            if d > 0 {
+                // strings are limited to 65535 bytes; stay well below
+                let d = (d as usize).min(60_000usize.saturating_sub(v.len()));
+                v.extend(std::iter::repeat('.').take(d));
+            } else {
+                let n = (-d) as usize;
+                let keep = v.len().saturating_sub(n).max(v.find(|c: char| c == '.').unwrap_or(v.len()).min(v.len()));
+                v.truncate(keep);
+            }
+        };
+        match spec {
+            OpSpec::Publish(p) => {
+                if rng.coin() || delta < 0 || target > 50_000 {
+                    grow(p.payload.get_or_insert_with(Vec::new), delta);
+                } else if rng.coin() {
+                    let t = p.topic.get_or_insert_with(String::new);
+                    if !t.ends_with('/') && !t.contains('.') {
+                        t.push('/');
+                    }
+                    grow_s(t, delta - 1);
+                } else {
+                    if p.user.is_empty() {
+                        p.user.push((String::new(), String::new()));
+                    }
+                    grow_s(&mut p.user[0].1, delta - 5);
+                }
+            }
+            OpSpec::Subscribe(s) => {
+                let last = s.filters.len() - 1;
+                let f = &mut s.filters[last].0;
+                if !f.contains('.') && !f.ends_with('/') {
+                    f.push('/');
+                }
+                grow_s(f, delta - 1);
+            }
+            OpSpec::Unsubscribe(u) => {
+                let last = u.filters.len() - 1;
+                let f = &mut u.filters[last];
+                if !f.contains('.') && !f.ends_with('/') {
+                    f.push('/');
+                }
+                grow_s(f, delta - 1);
+            }
+            OpSpec::Disconnect(d) => {
+                let extra = if d.reason_string.is_none() { 3 } else { 0 };
+                grow_s(d.reason_string.get_or_insert_with(String::new), delta - extra);
+            }
+            OpSpec::Ping => return,
+        }
+    }
+}
+
+pub fn maxpacket(rng: &mut Rng) -> Case {
+    let mut cfg = GenCfg::conformant(rng);
+    cfg.receive_max = if rng.coin() { Some(rng.range(1, 4) as u16) } else { None };
+    cfg.writer_tweaks = rng.chance(1, 4);
+    cfg.all_reasons = false;
+    let m: Option<u32> = match rng.below(12) {
+        0 => None,
+        1 => Some(1),
+        2 => Some(2),
+        3 => Some(3),
+        4 => Some(u32::MAX),
+        5 => Some(rng.range(128, 140) as u32),     // around the 1->2 byte remaining length boundary
+        6 => Some(rng.range(16_380, 16_395) as u32), // around the 2->3 byte boundary
+        7 => Some(rng.range(65_000, 70_000) as u32),
+        _ => Some(rng.range(12, 90) as u32),
+    };
+    cfg.max_packet = m;
+    let r = cfg.receive_max;
+    let n_ops = rng.urange(1, 9);
+    let mut g = Gen::new(cfg, rng);
+    g.preamble();
+    for _ in 0..n_ops {
+        let id = g.next_op_id();
+        let kind = g.rng.weighted(&[2, 3, 2, 2, 2, 1]);
+        let mut spec = g.new_op_spec(kind, id);
+        if let Some(m) = m {
+            if m >= 4 && m < 100_000 {
+                let target = (m as i64 + *g.rng.pick(&[-1i64, 0, 0, 1, 1, -7, 9])) as usize;
+                pad_to(&mut spec, target, g.rng);
+            }
+        }
+        let handle = g.rng.usize_below(g.cfg.handles.max(1));
+        g.push(Step::Op { id, handle, spec });
+        if g.rng.chance(3, 4) {
+            g.settle();
+        }
+        if g.rng.coin() {
+            let acks = g.ack_candidates();
+            if !acks.is_empty() {
+                let (op, kind) = acks[g.rng.usize_below(acks.len())];
+                g.send_ack(op, kind);
+                g.settle();
+            }
+        }
+    }
+    g.drain();
+    if let (Some(r), true) = (r, m.map(|m| m >= 20).unwrap_or(true)) {
+        g.quota_probe(r as usize);
+    }
+    if g.rng.chance(1, 4) {
+        // a DISCONNECT as the very last request
+        let id = g.next_op_id();
+        let mut spec = OpSpec::Disconnect(DisconnectSpec { reason: None, session_expiry: None, reason_string: Some("bye".into()), user: vec![] });
+        if let Some(m) = m {
+            if m >= 8 && m < 100_000 {
+                let target = (m as i64 + *g.rng.pick(&[-1i64, 0, 1])) as usize;
+                pad_to(&mut spec, target, g.rng);
+            }
+        }
+        g.push(Step::Op { id, handle: 0, spec });
+        g.settle();
+    }
+    finish_case(g, "maxpacket")
+}
+
+/// The same scenario with no Maximum Packet Size announced (used to read packet lengths off the wire).
+pub fn without_max_packet(sc: &Scenario) -> Scenario {
+    let mut out = sc.clone();
+    for s in out.steps.iter_mut() {
+        if let Step::Broker { pkt: BrokerPkt::Connack { props, .. }, .. } = s {
+            props.0.retain(|(id, _)| *id != pid::MAXIMUM_PACKET_SIZE);
+        }
+    }
+    out
+}
